@@ -96,7 +96,12 @@ def c02(c):
 def c03(c):
     build_both()
     c.mc(toy_cfgs(["point", "pair"], c.tier))
+    plan, n = gen_plan("DecodePlan.tla", "cfg/DecodePlan.cfg", "dec")
+    c.notes.append("DecodePlan: %d strings; its valid encodings at value / limb boundaries and with word patterns (a 64- or 32-bit limb "
+                   "all ones, all zeros, equal to the modulus' limb +-1) are decoded and re-encoded from six representatives "
+                   "(coset member, two rescalings, double negation, P+B-B) through every encoder" % n)
     for b in ("ark", "min"):
+        c.trace(b, "rtfile", 0, plan)
         c.trace(b, "obs", scale(c.tier, 2, 30))
         c.trace(b, "prog", scale(c.tier, 60, 1200), 40)
         # affine round trips and batch normalisation must hand back the same element (its encoding is unchanged)
